@@ -90,6 +90,7 @@ def ref_dqn_family(name, B, nets, cfg, extra):
         if np.any(srt[:, -1] - srt[:, -2] <= 64 * EPS32 * (1 + np.abs(srt[:, -1]))):
             return None  # numerically tied maximiser: the selection is not determined at float32 precision
         boot = tgt[np.arange(n), sel.argmax(axis=1)]
+        extra["selection_differs"] = bool(np.any((sel.argmax(axis=1) != tgt.argmax(axis=1)) & (B["_t"] == 0)))
     y = B["_r"] + (1.0 - B["_t"]) * g * boot
     pred = q_o[np.arange(n), a]
     e = pred - y
@@ -477,6 +478,8 @@ class RefinementMonitor:
                     run.res.probe("update_on_mixed_terminated_batch")
             if ref.clip_active:
                 run.res.probe("update_with_active_value_clipping")
+            if s["extra"].get("selection_differs"):
+                run.res.probe("double_q_selection_differs_from_target_argmax")
             if self.name == "td7" and ref.y is not None and "min_value" in window and "max_value" in window:
                 # tracked value range = running min / max of the targets of this call
                 if prev_range is not None and prev_range[0] == s["call"]:
